@@ -379,6 +379,9 @@ func PublishContext[T any](bus *EventBus, ctx context.Context, event T) {
 		bus.beforePublishCtx(ctx, eventType, event)
 	}
 
+	// Persist the event (no-op without a store) before any handler sees it
+	bus.persistEvent(ctx, eventType, event)
+
 	// Get handlers from appropriate shard
 	shard := bus.getShard(eventType)
 	shard.mu.RLock()
